@@ -5,17 +5,18 @@
 \* character classes that matter to the encodings (unreserved, space, & = + % ; / ? #, latin-1, non-latin-1, empty),
 \* with up to two fields away from the default at a time (all pairs of fields x all pairs of classes).
 EXTENDS Naturals, Sequences, FiniteSets, TLC
-CONSTANTS Classes, Methods, BodyKinds, MaxAway     \* MaxAway: how many fields may differ from the default at once
+CONSTANTS Classes, Methods, BodyKinds, MaxAway,
+          PathQueries    \* a query string already in the path the application passes ("none", or a kind of it): it is merged with the arguments     \* MaxAway: how many fields may differ from the default at once
 VARIABLES req, got
 vars == <<req, got>>
 Default == "plain"
 Fields == {"seg", "qkey", "qval", "hval"}
-Reqs == {r \in [method : Methods, seg : Classes, qkey : Classes, qval : Classes, hval : Classes, body : BodyKinds] :
+Reqs == {r \in [method : Methods, seg : Classes, qkey : Classes, qval : Classes, hval : Classes, body : BodyKinds, pq : PathQueries] :
             Cardinality({f \in Fields : r[f] # Default}) <= MaxAway}
 \* cases the property does not decide: an empty path segment or key collapses in any URL syntax; "?" and "#" inside a
 \* path delimit query and fragment by design; header values are trimmed of blanks by HTTP itself
 DontCare(r) == r.seg \in {"empty", "question", "hash"} \/ r.qkey = "empty" \/ r.hval \in {"space", "empty"}
-Unsent == [method |-> "-", seg |-> "-", qkey |-> "-", qval |-> "-", hval |-> "-", body |-> "-"]
+Unsent == [method |-> "-", seg |-> "-", qkey |-> "-", qval |-> "-", hval |-> "-", body |-> "-", pq |-> "-"]
 Init == req \in Reqs /\ got = Unsent
 Deliver == got = Unsent /\ got' = req /\ UNCHANGED req          \* the channel is the identity
 Next == Deliver
